@@ -13,6 +13,7 @@ Z = '\x00'
 
 
 import ast as _ast
+import re as _re
 _GETBEP = _ast.parse('def _get_bep(r):\n    return r.bep\n').body[0]
 
 
@@ -37,6 +38,42 @@ def flat(v):
             out += flat(x)
         return out
     return [v]
+
+
+_SPEC = _re.compile(r'^(?:.?[<>=^])?[ +-]?z?#?0?\d*[,_]?(?:\.(\d+))?([a-zA-Z%])?$')
+NEED_DIGITS = 6
+
+
+def sig_digits(spec):
+    """significant digits a format specification keeps whatever the magnitude of the number: 17 for the plain
+    conversion (shortest text that reads back to the same float), precision (+1) for the exponent and general
+    presentations, 0 for fixed-point, percent and integer presentations (a coefficient of 1e-14 printed with '.8f' is
+    0.00000000)"""
+    m_ = _SPEC.match(spec or '')
+    if m_ is None:
+        return 0
+    prec, typ = m_.group(1), m_.group(2)
+    if typ is None:
+        return 17 if prec is None else max(int(prec), 1)
+    if typ in ('e', 'E'):
+        return (int(prec) if prec is not None else 6) + 1
+    if typ in ('g', 'G', 'n'):
+        return max(int(prec), 1) if prec is not None else 6
+    return 0
+
+
+def lossy_fields(sg, values=None):
+    """the numeric fields of an abstract text (those printing one of ``values`` when given) whose format keeps fewer
+    than NEED_DIGITS significant digits for some magnitude"""
+    out = []
+    for f_ in sg.fields():
+        if f_.cls != 'num' or not isinstance(f_.value, Rat):
+            continue
+        if values is not None and not any(f_.value.eq(v_) for v_ in values):
+            continue
+        if sig_digits(f_.spec) < NEED_DIGITS:
+            out.append((f_.value, f_.spec))
+    return out
 
 
 def named_ids(I, entries):
@@ -127,6 +164,12 @@ def species_emitters(run, repo):
             names = [f.value for f in sg.fields() if f.cls != 'num']
             run.check(names == [name], 'SLOT.cti', cname + '.to_cti', 'name', 'species name fields: %s' % names,
                       owner.module, fn)
+            lossy = lossy_fields(sg)
+            run.check(not lossy, 'SLOT.cti', cname + '.to_cti', 'digits kept',
+                      'the CTI entry prints %s: a polynomial coefficient has any magnitude (a5 is of the order 1e-14), '
+                      'its text must keep at least %d significant digits whatever the magnitude (exponent, general or '
+                      'plain presentation)' % (['%s as {:%s}' % (show(v_, 20), s_) for v_, s_ in lossy[:4]], NEED_DIGITS),
+                      owner.module, fn)
             run.check(any(x.eq(ns) for x in nums), 'SLOT.cti', cname + '.to_cti', 'site occupancy',
                       'the site occupancy (size=) is not written', owner.module, fn)
             lit = ''.join(s.text for s in sg.segs if s.kind == 'lit')
@@ -177,66 +220,88 @@ def phase_emitters(run, repo):
         ('pmutt.omkm.phase.InteractingInterface', {'name': text(I, 'surfname', 5), 'site_density': sden,
                                                    'phases': ListV([gas_name])}, 'site_density'),
     ]
-    for qual, kw, qty in cases:
-        ci = repo.cls(qual)
-        ph = fr.apply(ci, [], dict(kw, species=ListV(list(sp)), note=text(I, 'note', 9)), None)
-        names = [s_.attrs['name'] for s_ in sp]
-        all_el = []
-        for s_ in sp:
-            for e_ in s_.attrs['elements'].d:
-                if e_ not in all_el:
-                    all_el.append(e_)
-        # YAML
-        owner, fn = repo.find_method(ci, 'to_omkm_yaml')
-        run.fn(owner.qual + '.to_omkm_yaml')
-        d = I.call_method(ph, 'to_omkm_yaml', [], {'units': u})
-        cn = qual.split('.')[-1]
-        if isinstance(d, DictV):
-            got_sp = [I.plain(x) for x in flat(d.d.get('species'))]
-            got_el = sorted(I.plain(x) for x in flat(d.d.get('elements')))
-            run.check(got_sp == names, 'DATAFLOW.phase', cn + '.to_omkm_yaml', 'species',
-                      'the phase lists species %s, it owns %s' % (got_sp, names), owner.module, fn,
-                      sample='%s.to_omkm_yaml lists exactly its species' % cn)
-            run.check(got_el == sorted(all_el), 'DATAFLOW.phase', cn + '.to_omkm_yaml', 'elements',
-                      'the phase lists elements %s, its species contain %s' % (got_el, sorted(all_el)), owner.module, fn)
-            run.check(I.plain(d.d.get('name')) == kw['name'], 'DATAFLOW.phase', cn + '.to_omkm_yaml', 'name',
-                      'the phase entry is named %s, the phase is called %s (its note is a different text)'
-                      % (show(d.d.get('name'), 40), show(kw['name'], 40)), owner.module, fn)
-            if qty == 'site_density':
-                sg = I.seg(d.d.get('site-density')) if isinstance(d.d.get('site-density'), (str, SegStr)) else None
-                val = num_fields(I, sg)[0] if sg is not None and num_fields(I, sg) else None
-                # mol/cm2 -> mol/m2
-                want = sden * (D.sym('U<cm2>') / C(1))
-                lit = ''.join(s.text for s in sg.segs if s.kind == 'lit') if sg is not None else ''
-                run.check(val is not None and val.eq(want) and 'mol/m^2' in lit, 'DIM.site-density',
-                          cn + '.to_omkm_yaml', 'site density',
-                          'site density written as %s, expected site_density*[mol/cm2 -> mol/m2] with unit mol/m^2'
-                          % show(d.d.get('site-density'), 100), owner.module, fn)
-        else:
-            run.fail('DATAFLOW.phase', cn + '.to_omkm_yaml', 'raises', 'gives %s' % show(d), owner.module, fn)
-        # CTI
-        owner, fn = repo.find_method(ci, 'to_cti')
-        run.fn(owner.qual + '.to_cti')
-        out = I.call_method(ph, 'to_cti', [], {'units': u} if qty else {})
-        if isinstance(out, Raised):
-            run.fail('DATAFLOW.phase', cn + '.to_cti', 'raises', 'to_cti raises %s' % out.exc, owner.module, fn)
-            continue
-        sg = I.seg(out)
-        texts = [f.value for f in sg.fields() if f.cls != 'num']
-        run.check(all(texts.count(n_) == 1 for n_ in names) and all(texts.count(e_) == 1 for e_ in all_el),
-                  'DATAFLOW.phase', cn + '.to_cti', 'species and elements once',
-                  'species/elements in the CTI phase entry: %s' % [str(t).strip(Z) for t in texts], owner.module, fn)
-        run.check(texts.count(kw['name']) == 1 and texts.index(kw['name']) == 0, 'DATAFLOW.phase', cn + '.to_cti',
-                  'name', 'the CTI phase entry must open with the name of the phase; its text fields are %s'
-                  % [str(t).strip(Z) for t in texts], owner.module, fn)
-        if qty:
-            nums = num_fields(I, out)
-            want = sden * D.sym('U<cm2>') if qty == 'site_density' else rho * D.sym('U<cm3>')
-            # quantity mol -> mol (1), mass g -> g (1)
-            run.check(len(nums) == 1 and nums[0].eq(want), 'DIM.' + qty.replace('_', '-'), cn + '.to_cti', qty,
-                      '%s written as %s, expected %s (mol/cm2 -> mol/m2, g/cm3 -> g/m3)'
-                      % (qty, show(ListV(nums), 100), show(want, 100)), owner.module, fn,
-                      sample='%s.to_cti: %s converted to the unit system' % (cn, qty))
+    # two unit systems, so that none of the three conversions (quantity, length, mass) is the identity in both: an
+    # explicit one (mol, m, g) and the default of the Units class (molec, cm, kg)
+    u_first = u
+    for usys, ulab in (({'length': 'm', 'quantity': 'mol', 'mass': 'g'}, ''),
+                       ({'length': 'cm', 'quantity': 'molec', 'mass': 'kg'}, ' [default unit system]')):
+        u = u_first if not ulab else fr.apply(repo.cls('pmutt.omkm.units.Units'), [], {}, None)
+        q_conv = I.unit(usys['quantity']) / I.unit('mol')
+        a_conv = I.unit(usys['length'] + '2') / I.unit('cm2')
+        v_conv = I.unit(usys['length'] + '3') / I.unit('cm3')
+        m_conv = I.unit(usys['mass']) / I.unit('g')
+        for qual, kw, qty in cases:
+            ci = repo.cls(qual)
+            ph = fr.apply(ci, [], dict(kw, species=ListV(list(sp)), note=text(I, 'note', 9)), None)
+            names = [s_.attrs['name'] for s_ in sp]
+            all_el = []
+            for s_ in sp:
+                for e_ in s_.attrs['elements'].d:
+                    if e_ not in all_el:
+                        all_el.append(e_)
+            # YAML
+            owner, fn = repo.find_method(ci, 'to_omkm_yaml')
+            run.fn(owner.qual + '.to_omkm_yaml')
+            d = I.call_method(ph, 'to_omkm_yaml', [], {'units': u})
+            cn = qual.split('.')[-1]
+            if isinstance(d, DictV):
+                got_sp = [I.plain(x) for x in flat(d.d.get('species'))]
+                got_el = sorted(I.plain(x) for x in flat(d.d.get('elements')))
+                run.check(got_sp == names, 'DATAFLOW.phase', cn + '.to_omkm_yaml', 'species' + ulab,
+                          'the phase lists species %s, it owns %s' % (got_sp, names), owner.module, fn,
+                          sample='%s.to_omkm_yaml lists exactly its species' % cn)
+                run.check(got_el == sorted(all_el), 'DATAFLOW.phase', cn + '.to_omkm_yaml', 'elements' + ulab,
+                          'the phase lists elements %s, its species contain %s' % (got_el, sorted(all_el)), owner.module, fn)
+                run.check(I.plain(d.d.get('name')) == kw['name'], 'DATAFLOW.phase', cn + '.to_omkm_yaml', 'name' + ulab,
+                          'the phase entry is named %s, the phase is called %s (its note is a different text)'
+                          % (show(d.d.get('name'), 40), show(kw['name'], 40)), owner.module, fn)
+                if qty == 'site_density':
+                    sg = I.seg(d.d.get('site-density')) if isinstance(d.d.get('site-density'), (str, SegStr)) else None
+                    val = num_fields(I, sg)[0] if sg is not None and num_fields(I, sg) else None
+                    # mol/cm2 -> quantity/length2
+                    want = sden * q_conv / a_conv
+                    ulit = '%s/%s^2' % (usys['quantity'], usys['length'])
+                    lit = ''.join(s.text for s in sg.segs if s.kind == 'lit') if sg is not None else ''
+                    run.check(val is not None and val.eq(want) and lit.strip().strip('"\'').strip() == ulit,
+                              'DIM.site-density', cn + '.to_omkm_yaml', 'site density' + ulab,
+                              'site density written as %s, expected site_density*[mol/cm2 -> %s/%s2] = %s with unit %s'
+                              % (show(d.d.get('site-density'), 100), usys['quantity'], usys['length'],
+                                 show(want, 80), ulit), owner.module, fn)
+            else:
+                run.fail('DATAFLOW.phase', cn + '.to_omkm_yaml', 'raises' + ulab, 'gives %s' % show(d), owner.module,
+                         fn)
+            # CTI
+            owner, fn = repo.find_method(ci, 'to_cti')
+            run.fn(owner.qual + '.to_cti')
+            out = I.call_method(ph, 'to_cti', [], {'units': u} if qty else {})
+            if isinstance(out, Raised):
+                run.fail('DATAFLOW.phase', cn + '.to_cti', 'raises' + ulab, 'to_cti raises %s' % out.exc, owner.module,
+                         fn)
+                continue
+            sg = I.seg(out)
+            texts = [f.value for f in sg.fields() if f.cls != 'num']
+            run.check(all(texts.count(n_) == 1 for n_ in names) and all(texts.count(e_) == 1 for e_ in all_el),
+                      'DATAFLOW.phase', cn + '.to_cti', 'species and elements once' + ulab,
+                      'species/elements in the CTI phase entry: %s' % [str(t).strip(Z) for t in texts], owner.module, fn)
+            run.check(texts.count(kw['name']) == 1 and texts.index(kw['name']) == 0, 'DATAFLOW.phase', cn + '.to_cti',
+                      'name' + ulab, 'the CTI phase entry must open with the name of the phase; its text fields are %s'
+                      % [str(t).strip(Z) for t in texts], owner.module, fn)
+            if qty:
+                nums = num_fields(I, out)
+                # mol/cm2 -> quantity/length2, g/cm3 -> mass/length3
+                want = sden * q_conv / a_conv if qty == 'site_density' else rho * m_conv / v_conv
+                run.check(len(nums) == 1 and nums[0].eq(want), 'DIM.' + qty.replace('_', '-'), cn + '.to_cti', qty + ulab,
+                          '%s written as %s, expected %s (mol/cm2 -> %s/%s2, g/cm3 -> %s/%s3)'
+                          % (qty, show(ListV(nums), 100), show(want, 100), usys['quantity'], usys['length'],
+                             usys['mass'], usys['length']), owner.module, fn,
+                          sample='%s.to_cti: %s converted to the unit system%s' % (cn, qty, ulab))
+                lossy = lossy_fields(sg)
+                run.check(not lossy, 'DIM.' + qty.replace('_', '-'), cn + '.to_cti', qty + ' digits kept' + ulab,
+                          'the phase entry prints %s: a %s has any magnitude in the unit system asked for (2.5e-9 '
+                          'mol/cm2, 1.5e15 molec/cm2), its text must keep at least %d significant digits whatever the '
+                          'magnitude' % (['%s as {:%s}' % (show(v_, 30), s_) for v_, s_ in lossy[:3]],
+                                         qty.replace('_', ' '), NEED_DIGITS), owner.module, fn)
+    u = u_first
     # a phase with so many species that the list does not fit on one line of the CTI entry (any mechanism of realistic
     # size): every species is still named once, in order, names separated by white space only
     many = [Obj('msp%d' % k, attrs={'name': text(I, 'msp%d' % k, 5 + (3 * k) % 7),
@@ -359,6 +424,34 @@ def phase_emitters(run, repo):
                   owner_c.module, fn_c, sample='InteractingInterface.to_cti [%s]: %s' % (lab, why))
 
 
+def equation_terms(sg, names):
+    """[(species name, coefficient written in front of it)] of an equation text: the coefficient is the number that ends
+    the text before the name (Fraction), C(1) when there is none, the printed value when it is a formatted symbol,
+    None when what stands there is not a number"""
+    import re
+    out = []
+    for k_, s_ in enumerate(sg.segs):
+        if not (s_.kind == 'field' and s_.value in names):
+            continue
+        prev = sg.segs[k_ - 1] if k_ > 0 else None
+        if prev is not None and prev.kind == 'field' and prev.cls == 'num':
+            out.append((s_.value, prev.value))
+            continue
+        lit = prev.text if prev is not None and prev.kind == 'lit' else ''
+        if lit.strip() == '' and k_ > 1 and sg.segs[k_ - 2].kind == 'field' and sg.segs[k_ - 2].cls == 'num':
+            out.append((s_.value, sg.segs[k_ - 2].value))
+            continue
+        m_ = re.search(r'(?:^|[\s"\'(>+=])((?:\d+\.?\d*|\.\d+)(?:[eE][-+]?\d+)?)\s*$', lit)
+        if m_ is None:
+            out.append((s_.value, C(1)))
+        else:
+            try:
+                out.append((s_.value, C(Fr(m_.group(1)))))
+            except ValueError:
+                out.append((s_.value, None))
+    return out
+
+
 def reaction_emitters(run, repo):
     qual = 'pmutt.omkm.reaction.SurfaceReaction'
     ci = repo.cls(qual)
@@ -375,23 +468,34 @@ def reaction_emitters(run, repo):
 
     bci = repo.cls('pmutt.omkm.reaction.BEP')
     # (adsorption, activation energy given by the user, product coefficient, Motz-Wise, transition state, method for
-    # the barrier of an adsorption step, unit system)
+    # the barrier of an adsorption step, unit system, reactant side)
     U_KJ = {'act_energy': 'kJ/mol', 'quantity': 'mol', 'length': 'm'}
     U_MOLEC = {'act_energy': 'J/mol', 'quantity': 'molec', 'length': 'm'}
     U_CM = {'act_energy': 'kcal/mol', 'quantity': 'molecule', 'length': 'cm'}
-    variants = ((False, False, C(2), False, None, None, U_KJ), (True, False, C(2), False, None, None, U_KJ),
-                (False, True, C(2), False, None, None, U_KJ), (False, False, C(Fr(3, 2)), False, None, None, U_KJ),
-                (True, False, C(2), True, None, None, U_KJ),
-                (False, False, C(2), False, None, None, U_MOLEC), (False, False, C(2), False, None, None, U_CM),
-                (False, False, C(2), False, 'species', None, U_MOLEC), (False, False, C(2), False, 'bep', None, U_KJ),
-                (True, False, C(2), False, 'species', None, U_CM), (True, False, C(2), False, 'bep', 'get_G_act', U_KJ),
-                (True, False, C(2), False, None, 'get_G_act', U_MOLEC))
-    for adsorption, user_ea, pcoef, motz, ts_kind, ads_method, usys in variants:
+    # the reactant side: two species with coefficient 1 (the first a gas species for an adsorption step); one surface
+    # species with coefficient 2 (associative desorption 2 H(S) <=> H2 + 2 PT(S)); two surface species with
+    # coefficients 2 and 1; a gas species with coefficient 1/2 (dissociative adsorption 0.5 O2 + PT(S) <=> O(S))
+    ONE_ONE, ONE_X2, TWO_ONE, HALF_GAS = '1 + 1', '2', '2 + 1', '1/2 + 1'
+    variants = ((False, False, C(2), False, None, None, U_KJ, ONE_ONE), (True, False, C(2), False, None, None, U_KJ, ONE_ONE),
+                (False, True, C(2), False, None, None, U_KJ, ONE_ONE),
+                (False, False, C(Fr(3, 2)), False, None, None, U_KJ, ONE_ONE),
+                (True, False, C(2), True, None, None, U_KJ, ONE_ONE),
+                (False, False, C(2), False, None, None, U_MOLEC, ONE_ONE),
+                (False, False, C(2), False, None, None, U_CM, ONE_ONE),
+                (False, False, C(2), False, 'species', None, U_MOLEC, ONE_ONE),
+                (False, False, C(2), False, 'bep', None, U_KJ, ONE_ONE),
+                (True, False, C(2), False, 'species', None, U_CM, ONE_ONE),
+                (True, False, C(2), False, 'bep', 'get_G_act', U_KJ, ONE_ONE),
+                (True, False, C(2), False, None, 'get_G_act', U_MOLEC, ONE_ONE),
+                (False, False, C(2), False, None, None, U_CM, ONE_X2),
+                (False, False, C(2), False, None, None, U_KJ, ONE_X2),
+                (False, False, C(Fr(3, 2)), False, None, None, U_MOLEC, TWO_ONE),
+                (False, False, C(1), False, 'species', None, U_CM, TWO_ONE),
+                (True, False, C(1), False, None, None, U_KJ, HALF_GAS))
+    for adsorption, user_ea, pcoef, motz, ts_kind, ads_method, usys, rside in variants:
         I = Interp(repo)
         D = I.D
         fr = Frame(I, repo.module('pmutt'), {}, None, None)
-        u = fr.apply(repo.cls('pmutt.omkm.units.Units'), [], dict(usys), None)
-        e_unit = usys['act_energy']
         surf = Obj('surf', repo.cls('pmutt.omkm.phase.InteractingInterface'), attrs={'site_density': D.sym('sden')})
         g = opaque_species(I, 'g1', 'gas')
         a = opaque_species(I, 'a1', surf)
@@ -403,6 +507,14 @@ def reaction_emitters(run, repo):
         # a surface step has two surface reactants: its pre-exponential factor then carries a power of the site
         # density and depends on the quantity/length units requested
         r0 = g if adsorption else a3
+        if rside == ONE_X2:
+            rs, rnu = [a], [C(2)]
+        elif rside == TWO_ONE:
+            rs, rnu = [r0, a], [C(2), C(1)]
+        elif rside == HALF_GAS:
+            rs, rnu = [r0, a], [C(Fr(1, 2)), C(1)]
+        else:
+            rs, rnu = [r0, a], [C(1), C(1)]
         tskw = {}
         tsp = None
         if ts_kind == 'species':
@@ -418,129 +530,202 @@ def reaction_emitters(run, repo):
                 raise Unsupported('omkm.BEP(...) gives %s for the model relation' % show(tsp, 80))
         if tsp is not None:
             tskw = {'ts': [tsp], 'tstoich': [C(1)]}
-        rxn = make_reaction(I, repo, ci, [r0, a], [C(1), C(1)], [b], [pcoef], id=rid, is_adsorption=adsorption,
+        rxn = make_reaction(I, repo, ci, rs, rnu, [b], [pcoef], id=rid, is_adsorption=adsorption,
                             A=None, beta=D.sym('beta'), Ea=D.sym('Ea_user') if user_ea else None,
                             direction='cleavage' if ts_kind == 'bep' else None,
                             sticking_coeff=D.sym('stick'), use_motz_wise=motz, **tskw)
-        T, P = D.sym('T'), D.sym('P')
-        label = 'adsorption=%s user Ea=%s' % (adsorption, user_ea) + ('' if pcoef.eq(C(2)) else ' product coefficient 3/2') \
+        label = 'adsorption=%s user Ea=%s' % (adsorption, user_ea) \
+            + ('' if rside == ONE_ONE else ' reactant coefficients ' + rside) \
+            + ('' if pcoef.eq(C(2)) else ' product coefficient %s' % pcoef.const_value()) \
             + (' Motz-Wise' if motz else '') + ('' if ts_kind is None else ' transition state=' + ts_kind) \
             + ('' if ads_method is None else ' ads_act_method=' + ads_method) \
-            + ('' if usys is U_KJ else ' units=%s,%s,%s' % (usys['quantity'], usys['length'], e_unit))
-        spnames = [r0.attrs['name'], a.attrs['name'], b.attrs['name']]
-        # ---- what the model says, written here from the species (nothing of the reaction class is consulted):
-        # the barrier is max(0, state change to the transition state, state change to the products) of the Gibbs
-        # energy (enthalpy for an adsorption step unless the Gibbs energy is asked for), times R T in the energy unit
-        kwq = {'T': T, 'P': P}
-        e_fac = I.unit(e_unit) / I.unit('kcal/mol')
-        Rk = D.sym('kb') * D.sym('Na') * I.unit(e_unit)
-        clamp_args = None
-        if user_ea:
-            wantE = D.sym('Ea_user') * e_fac
-        else:
-            q_ = 'get_HoRT' if adsorption and ads_method != 'get_G_act' else 'get_GoRT'
-            ini = state_sum(I, [r0, a], [C(1), C(1)], q_, kwq)
-            clamp_args = [C(0), state_sum(I, [b], [pcoef], q_, kwq) - ini]
-            if ts_kind == 'species':
-                clamp_args.append(state_sum(I, [tsp], [C(1)], q_, kwq) - ini)
-            elif ts_kind == 'bep':
-                # enthalpy of the relation's state: reactants + (slope * reaction enthalpy + intercept[kcal/mol]);
-                # its entropy is the reactants' entropy
-                h_ini = state_sum(I, [r0, a], [C(1), C(1)], 'get_HoRT', kwq)
-                dh = state_sum(I, [b], [pcoef], 'get_HoRT', kwq) - h_ini
-                barrier = D.sym('bslope') * dh + D.sym('bicpt') / (D.sym('kb') * D.sym('Na') * I.unit('kcal/mol') * T)
-                if q_ == 'get_HoRT':
-                    clamp_args.append(barrier)
-                else:
-                    clamp_args.append(h_ini + barrier - state_sum(I, [r0, a], [C(1), C(1)], 'get_SoR', kwq) - ini)
-            wantE = None
-        # the pre-exponential factor of a step without entropy term: kB/h over (site densities of the surface
-        # reactants, summed, mol/cm2 -> quantity/length^2) to the power (number of surface reactants - 1)
-        if adsorption:
-            wantA = D.sym('stick')
-        else:
-            conv = I.unit(usys['quantity']) / I.unit('mol') / (I.unit(usys['length'] + '2') / I.unit('cm2'))
-            wantA = D.sym('kb') / D.sym('h') / (D.sym('sden') * 2 * conv)
+            + ('' if usys is U_KJ else ' units=%s,%s,%s' % (usys['quantity'], usys['length'], usys['act_energy']))
+        spnames = [x_.attrs['name'] for x_ in rs] + [b.attrs['name']]
+        want_terms = list(zip(spnames, rnu + [pcoef]))
+        # the number of sites a step needs on its reactant side: surface reactants counted with their coefficients
+        nu_surf = C(0)
+        for x_, nu_ in zip(rs, rnu):
+            if x_ is not g:
+                nu_surf = nu_surf + nu_
+        n_sites = int(nu_surf.const_value())
 
-        def barrier_ok(val):
-            if not isinstance(val, Rat):
-                return False
-            if clamp_args is None:
-                return val.eq(wantE)
-            at = [x_ for x_ in val.atoms() if x_ in I.extrema and x_.startswith('MAX{')]
-            if len(at) != 1:
-                return False
-            # the largest of the candidates, taken before or after the multiplication with R T
-            if val.eq(Rat.atom(at[0]) * Rk * T):
-                cands = clamp_args
-            elif val.eq(Rat.atom(at[0])):
-                cands = [x_ * Rk * T for x_ in clamp_args]
+        def expectation(usys_, T, P):
+            """what the model says for one unit system and one (T, P), written here from the species (nothing of the
+            reaction class is consulted): the barrier is max(0, state change to the transition state, state change to
+            the products) of the Gibbs energy (enthalpy for an adsorption step unless the Gibbs energy is asked for),
+            times R T in the energy unit"""
+            e_unit = usys_['act_energy']
+            kwq = {'T': T, 'P': P}
+            e_fac = I.unit(e_unit) / I.unit('kcal/mol')
+            Rk = D.sym('kb') * D.sym('Na') * I.unit(e_unit)
+            clamp_args = None
+            if user_ea:
+                wantE = D.sym('Ea_user') * e_fac
             else:
+                q_ = 'get_HoRT' if adsorption and ads_method != 'get_G_act' else 'get_GoRT'
+                ini = state_sum(I, rs, rnu, q_, kwq)
+                clamp_args = [C(0), state_sum(I, [b], [pcoef], q_, kwq) - ini]
+                if ts_kind == 'species':
+                    clamp_args.append(state_sum(I, [tsp], [C(1)], q_, kwq) - ini)
+                elif ts_kind == 'bep':
+                    # enthalpy of the relation's state: reactants + (slope * reaction enthalpy + intercept[kcal/mol]);
+                    # its entropy is the reactants' entropy
+                    h_ini = state_sum(I, rs, rnu, 'get_HoRT', kwq)
+                    dh = state_sum(I, [b], [pcoef], 'get_HoRT', kwq) - h_ini
+                    barrier = D.sym('bslope') * dh + D.sym('bicpt') / (D.sym('kb') * D.sym('Na') *
+                                                                        I.unit('kcal/mol') * T)
+                    if q_ == 'get_HoRT':
+                        clamp_args.append(barrier)
+                    else:
+                        clamp_args.append(h_ini + barrier - state_sum(I, rs, rnu, 'get_SoR', kwq) - ini)
+                wantE = None
+            # the pre-exponential factor of a step without entropy term: kB/h over (site densities of the surface
+            # reactants, each as often as its coefficient says, summed, mol/cm2 -> quantity/length^2) to the power
+            # (number of sites taken - 1)
+            if adsorption:
+                wantA = D.sym('stick')
+            else:
+                conv = I.unit(usys_['quantity']) / I.unit('mol') / (I.unit(usys_['length'] + '2') / I.unit('cm2'))
+                wantA = D.sym('kb') / D.sym('h')
+                for _k in range(n_sites - 1):
+                    wantA = wantA / (D.sym('sden') * nu_surf * conv)
+
+            def barrier_ok(val):
+                if not isinstance(val, Rat):
+                    return False
+                if clamp_args is None:
+                    return val.eq(wantE)
+                at = [x_ for x_ in val.atoms() if x_ in I.extrema and x_.startswith('MAX{')]
+                if len(at) != 1:
+                    return False
+                # the largest of the candidates, taken before or after the multiplication with R T; a positive
+                # constant common to the candidates may stand in front of the maximum (k*max(0, x) == max(0, k*x))
+                atom = Rat.atom(at[0])
+                for scale, cands in ((Rk * T, clamp_args), (C(1), [x_ * Rk * T for x_ in clamp_args])):
+                    ratio = val / (atom * scale)
+                    if ratio.is_const() and ratio.const_value() > 0:
+                        args_ = [x_ * ratio for x_ in I.extrema[at[0]]]
+                        return all(any(same(x_, w_) for x_ in args_) for w_ in cands) and \
+                            all(any(same(x_, w_) for w_ in cands) for x_ in args_)
                 return False
-            args_ = I.extrema[at[0]]
-            return all(any(same(x_, w_) for x_ in args_) for w_ in cands) and \
-                all(any(same(x_, w_) for w_ in cands) for x_ in args_)
-        e_text = show(wantE, 100) if clamp_args is None else 'max(%s) * R T [%s]' % (
-            ', '.join(show(x_, 70) for x_ in clamp_args), e_unit)
-        call_kw = {'T': T, 'P': P, 'units': u}
-        if ads_method is not None:
-            call_kw['ads_act_method'] = ads_method
-        owner, fn = repo.find_method(ci, 'to_cti')
-        run.fn(owner.qual + '.to_cti', owner.qual + '.to_omkm_yaml')
-        out = I.call_method(rxn, 'to_cti', [], dict(call_kw))
-        if isinstance(out, Raised):
-            run.fail('DATAFLOW.reaction', 'SurfaceReaction.to_cti', label, 'raises %s' % out.exc, owner.module, fn)
-        else:
-            sg = I.seg(out)
-            nums = num_fields(I, out)
-            texts = [f.value for f in sg.fields() if f.cls != 'num']
-            ok = len(nums) == 3 and nums[0].eq(wantA) and nums[1].eq(D.sym('beta')) and barrier_ok(nums[2])
-            run.check(ok, 'DATAFLOW.reaction', 'SurfaceReaction.to_cti', label + ' rate parameters',
-                      'rate parameters written: %s; the model gives A=%s beta=beta Ea=%s in the requested units'
-                      % (show(ListV(nums), 300), show(wantA, 80), e_text), owner.module, fn,
-                      sample='SurfaceReaction.to_cti [%s]: [A, beta, Ea] from the model' % label)
-            run.check(texts == [r0.attrs['name'], a.attrs['name'], b.attrs['name'], rid], 'DATAFLOW.reaction',
-                      'SurfaceReaction.to_cti', label + ' equation and id',
-                      'equation/id fields are %s' % [str(t).strip(Z) for t in texts], owner.module, fn)
-            run.check(not glued(sg, spnames), 'DATAFLOW.reaction', 'SurfaceReaction.to_cti', label + ' equation terms',
-                      'in the equation %s the species %s follow their coefficient without a blank: the term names no '
-                      'species of the mechanism' % (show(sg, 120), glued(sg, spnames)), owner.module, fn)
-        owner, fn = repo.find_method(ci, 'to_omkm_yaml')
-        g.attrs['phase'] = 'gas'
-        d = I.call_method(rxn, 'to_omkm_yaml', [], dict(call_kw))
-        if not isinstance(d, DictV):
-            run.fail('DATAFLOW.reaction', 'SurfaceReaction.to_omkm_yaml', label, 'gives %s' % show(d), owner.module, fn)
-            continue
-        rc = d.d.get('sticking-coefficient' if adsorption else 'rate-constant')
-        ok = isinstance(rc, DictV)
-        if ok:
-            gotA, gotb, gotE = rc.d.get('A'), rc.d.get('b'), rc.d.get('Ea')
-            ea_n = num_fields(I, gotE) if isinstance(gotE, (str, SegStr)) else ([gotE] if isinstance(gotE, Rat) else [])
-            ea_l = ''.join(s.text for s in I.seg(gotE).segs if s.kind == 'lit') if isinstance(gotE, (str, SegStr)) \
-                else ''
-            ok = isinstance(gotA, Rat) and gotA.eq(wantA) and isinstance(gotb, Rat) and gotb.eq(D.sym('beta')) and \
-                len(ea_n) == 1 and barrier_ok(ea_n[0]) and ea_l.strip().strip('"').strip() == e_unit
-        run.check(ok, 'DATAFLOW.reaction', 'SurfaceReaction.to_omkm_yaml', label + ' rate parameters',
-                  'rate block is %s; the model gives A=%s, b=beta, Ea=%s %s' % (show(rc.d if isinstance(rc, DictV)
-                                                                                  else rc, 300),
-                                                                             show(wantA, 80), e_text, e_unit),
-                  owner.module, fn)
-        run.check(I.plain(d.d.get('id')) == rid, 'DATAFLOW.reaction', 'SurfaceReaction.to_omkm_yaml', label + ' id',
-                  'id is %s' % show(d.d.get('id')), owner.module, fn)
-        eq_ = d.d.get('equation')
-        eqs = I.seg(eq_) if isinstance(eq_, (str, SegStr)) else None
-        run.check(eqs is not None and [f.value for f in eqs.fields() if f.cls != 'num'] == spnames and
-                  not glued(eqs, spnames), 'DATAFLOW.reaction', 'SurfaceReaction.to_omkm_yaml', label + ' equation',
-                  'the equation entry is %s: every species once, each separated from its coefficient'
-                  % show(eq_, 120), owner.module, fn)
-        if adsorption:
-            run.check(d.d.get('Motz-Wise') is motz, 'DATAFLOW.reaction', 'SurfaceReaction.to_omkm_yaml',
-                      label + ' Motz-Wise flag', 'the Motz-Wise entry is %s for a reaction built with use_motz_wise=%s'
-                      % (show(d.d.get('Motz-Wise')), motz), owner.module, fn)
-            run.check(I.plain(d.d.get('sticking-species')) == g.attrs['name'], 'DATAFLOW.reaction',
-                      'SurfaceReaction.to_omkm_yaml', label + ' sticking species',
-                      'sticking species is %s, expected the gas reactant' % show(d.d.get('sticking-species')),
+            e_text = show(wantE, 100) if clamp_args is None else 'max(%s) * R T [%s]' % (
+                ', '.join(show(x_, 70) for x_ in clamp_args), e_unit)
+            return wantA, barrier_ok, e_text, e_unit
+
+        # what a user reads on the reaction: an emitter reports the object, it does not change it (the next file may
+        # be written in another unit system, at another temperature)
+        PUBLIC = ('A', 'Ea', 'beta', 'sticking_coeff', 'id', 'is_adsorption', 'use_motz_wise', 'direction')
+
+        def public_state():
+            out = {}
+            for k_ in PUBLIC:
+                try:
+                    out[k_] = get_public(I, rxn, k_)
+                except Exception as e_:         # an attribute the class does not have
+                    out[k_] = type(e_).__name__
+            return out
+
+        def unchanged(before, after):
+            return [k_ for k_ in PUBLIC if not (before[k_] is after[k_] or same(before[k_], after[k_]))]
+        state0 = public_state()
+        # the same reaction object is written twice: for the unit system of the variant at (T, P), then - as the next
+        # file of the same session - for another unit system at (T2, P2)
+        second = U_CM if usys is not U_CM else U_KJ
+        for nth, usys_, T, P in ((1, usys, D.sym('T'), D.sym('P')), (2, second, D.sym('T2'), D.sym('P2'))):
+            u = fr.apply(repo.cls('pmutt.omkm.units.Units'), [], dict(usys_), None)
+            wantA, barrier_ok, e_text, e_unit = expectation(usys_, T, P)
+            lab = label if nth == 1 else label + ' [written again for units=%s,%s,%s at T2, P2]' % (
+                usys_['quantity'], usys_['length'], e_unit)
+            call_kw = {'T': T, 'P': P, 'units': u}
+            if ads_method is not None:
+                call_kw['ads_act_method'] = ads_method
+            owner, fn = repo.find_method(ci, 'to_cti')
+            run.fn(owner.qual + '.to_cti', owner.qual + '.to_omkm_yaml')
+            out = I.call_method(rxn, 'to_cti', [], dict(call_kw))
+            if isinstance(out, Raised):
+                run.fail('DATAFLOW.reaction', 'SurfaceReaction.to_cti', lab, 'raises %s' % out.exc, owner.module, fn)
+            else:
+                sg = I.seg(out)
+                nums = num_fields(I, out)
+                texts = [f.value for f in sg.fields() if f.cls != 'num']
+                ok = len(nums) == 3 and nums[0].eq(wantA) and nums[1].eq(D.sym('beta')) and barrier_ok(nums[2])
+                run.check(ok, 'DATAFLOW.reaction', 'SurfaceReaction.to_cti', lab + ' rate parameters',
+                          'rate parameters written: %s; the model gives A=%s beta=beta Ea=%s in the requested units'
+                          % (show(ListV(nums), 300), show(wantA, 80), e_text), owner.module, fn,
+                          sample='SurfaceReaction.to_cti [%s]: [A, beta, Ea] from the model' % lab)
+                lossy = lossy_fields(sg)
+                run.check(not lossy, 'DATAFLOW.reaction', 'SurfaceReaction.to_cti', lab + ' digits kept',
+                          'the directive prints %s: a rate parameter has any magnitude, its text must keep at least %d '
+                          'significant digits whatever the magnitude'
+                          % (['%s as {:%s}' % (show(v_, 30), s_) for v_, s_ in lossy[:3]], NEED_DIGITS), owner.module, fn)
+                run.check(texts == spnames + [rid], 'DATAFLOW.reaction',
+                          'SurfaceReaction.to_cti', lab + ' equation and id',
+                          'equation/id fields are %s' % [str(t).strip(Z) for t in texts], owner.module, fn)
+                run.check(not glued(sg, spnames), 'DATAFLOW.reaction', 'SurfaceReaction.to_cti', lab + ' equation terms',
+                          'in the equation %s the species %s follow their coefficient without a blank: the term names no '
+                          'species of the mechanism' % (show(sg, 120), glued(sg, spnames)), owner.module, fn)
+                terms = equation_terms(sg, spnames)
+                run.check(len(terms) == len(want_terms) and all(
+                    n1 == n2 and isinstance(c1, Rat) and c1.eq(c2) for (n1, c1), (n2, c2) in zip(terms, want_terms)),
+                    'DATAFLOW.reaction', 'SurfaceReaction.to_cti', lab + ' equation coefficients',
+                    'the equation %s carries the coefficients %s; the reaction has %s (a coefficient of 1 is not '
+                    'written)' % (show(sg, 120).replace(Z, ''), [show(c_, 12) for _n, c_ in terms],
+                                  [show(c_, 12) for _n, c_ in want_terms]), owner.module, fn)
+            changed = unchanged(state0, public_state())
+            run.check(not changed, 'EFFECT.emitter', 'SurfaceReaction.to_cti', lab + ' reaction left as it was',
+                      'after to_cti the reaction reports %s, before %s: writing a reaction must not change what it says '
+                      '(the next file may ask for other units)'
+                      % ({k_: show(public_state()[k_], 60) for k_ in changed},
+                         {k_: show(state0[k_], 60) for k_ in changed}), owner.module, fn)
+            owner, fn = repo.find_method(ci, 'to_omkm_yaml')
+            g.attrs['phase'] = 'gas'
+            d = I.call_method(rxn, 'to_omkm_yaml', [], dict(call_kw))
+            if not isinstance(d, DictV):
+                run.fail('DATAFLOW.reaction', 'SurfaceReaction.to_omkm_yaml', lab, 'gives %s' % show(d), owner.module, fn)
+                continue
+            rc = d.d.get('sticking-coefficient' if adsorption else 'rate-constant')
+            ok = isinstance(rc, DictV)
+            if ok:
+                gotA, gotb, gotE = rc.d.get('A'), rc.d.get('b'), rc.d.get('Ea')
+                ea_n = num_fields(I, gotE) if isinstance(gotE, (str, SegStr)) else ([gotE] if isinstance(gotE, Rat) else [])
+                ea_l = ''.join(s.text for s in I.seg(gotE).segs if s.kind == 'lit') if isinstance(gotE, (str, SegStr)) \
+                    else ''
+                ok = isinstance(gotA, Rat) and gotA.eq(wantA) and isinstance(gotb, Rat) and gotb.eq(D.sym('beta')) and \
+                    len(ea_n) == 1 and barrier_ok(ea_n[0]) and ea_l.strip().strip('"').strip() == e_unit
+            run.check(ok, 'DATAFLOW.reaction', 'SurfaceReaction.to_omkm_yaml', lab + ' rate parameters',
+                      'rate block is %s; the model gives A=%s, b=beta, Ea=%s %s' % (show(rc.d if isinstance(rc, DictV)
+                                                                                      else rc, 300),
+                                                                                 show(wantA, 80), e_text, e_unit),
                       owner.module, fn)
+            run.check(I.plain(d.d.get('id')) == rid, 'DATAFLOW.reaction', 'SurfaceReaction.to_omkm_yaml', lab + ' id',
+                      'id is %s' % show(d.d.get('id')), owner.module, fn)
+            eq_ = d.d.get('equation')
+            eqs = I.seg(eq_) if isinstance(eq_, (str, SegStr)) else None
+            run.check(eqs is not None and [f.value for f in eqs.fields() if f.cls != 'num'] == spnames and
+                      not glued(eqs, spnames), 'DATAFLOW.reaction', 'SurfaceReaction.to_omkm_yaml', lab + ' equation',
+                      'the equation entry is %s: every species once, each separated from its coefficient'
+                      % show(eq_, 120), owner.module, fn)
+            terms = equation_terms(eqs, spnames) if eqs is not None else []
+            run.check(len(terms) == len(want_terms) and all(
+                n1 == n2 and isinstance(c1, Rat) and c1.eq(c2) for (n1, c1), (n2, c2) in zip(terms, want_terms)),
+                'DATAFLOW.reaction', 'SurfaceReaction.to_omkm_yaml', lab + ' equation coefficients',
+                'the equation entry %s carries the coefficients %s; the reaction has %s (a coefficient of 1 is not '
+                'written)' % (show(eq_, 120).replace(Z, ''), [show(c_, 12) for _n, c_ in terms],
+                              [show(c_, 12) for _n, c_ in want_terms]), owner.module, fn)
+            if adsorption:
+                run.check(d.d.get('Motz-Wise') is motz, 'DATAFLOW.reaction', 'SurfaceReaction.to_omkm_yaml',
+                          lab + ' Motz-Wise flag', 'the Motz-Wise entry is %s for a reaction built with use_motz_wise=%s'
+                          % (show(d.d.get('Motz-Wise')), motz), owner.module, fn)
+                run.check(I.plain(d.d.get('sticking-species')) == g.attrs['name'], 'DATAFLOW.reaction',
+                          'SurfaceReaction.to_omkm_yaml', lab + ' sticking species',
+                          'sticking species is %s, expected the gas reactant' % show(d.d.get('sticking-species')),
+                          owner.module, fn)
+            changed = unchanged(state0, public_state())
+            run.check(not changed, 'EFFECT.emitter', 'SurfaceReaction.to_omkm_yaml', lab + ' reaction left as it was',
+                      'after to_omkm_yaml the reaction reports %s, before %s: writing a reaction must not change what it '
+                      'says (the next file may ask for other units)'
+                      % ({k_: show(public_state()[k_], 60) for k_ in changed},
+                         {k_: show(state0[k_], 60) for k_ in changed}), owner.module, fn)
 
 
 def other_emitters(run, repo):
@@ -620,6 +805,11 @@ def other_emitters(run, repo):
         run.check(texts == [ni, nj, nid], 'DATAFLOW.interaction', 'PiecewiseCovEffect.to_cti', 'members and id',
                   'text fields %s' % [str(t).strip(Z) for t in texts], owner.module, fn)
         want = [iv.items[1]] + [s_ * conv for s_ in sl.items]
+        lossy = lossy_fields(sg)
+        run.check(not lossy, 'DIM.strength', 'PiecewiseCovEffect.to_cti', 'digits kept',
+                  'the directive prints %s: thresholds and strengths must keep at least %d significant digits whatever '
+                  'their magnitude' % (['%s as {:%s}' % (show(v_, 30), s_) for v_, s_ in lossy[:3]], NEED_DIGITS),
+                  owner.module, fn)
         run.check(eq_list(nums, want), 'DIM.strength', 'PiecewiseCovEffect.to_cti', 'thresholds and strengths',
                   'numbers written %s, expected thresholds then strengths converted kcal/mol -> kJ/mol: %s'
                   % (show(ListV(nums), 160), show(ListV(want), 160)), owner.module, fn,
@@ -679,6 +869,11 @@ def other_emitters(run, repo):
             'direction="cleavage"' in lit.replace(' ', '') and \
             'r_0001' in clv and 'r_0002' in clv and 'r_0005' not in clv and 'r_0005' in syn and 'r_0001' not in syn \
             and 'r_0002' not in syn
+        lossy = lossy_fields(sg)
+        run.check(not lossy, 'DATAFLOW.bep', 'omkm.BEP.to_cti', 'digits kept',
+                  'the directive prints %s: slope and intercept must keep at least %d significant digits whatever their '
+                  'magnitude' % (['%s as {:%s}' % (show(v_, 30), s_) for v_, s_ in lossy[:3]], NEED_DIGITS),
+                  owner.module, fn)
         run.check(ok, 'DATAFLOW.bep', 'omkm.BEP.to_cti', 'members and parameters',
                   'BEP directive is %s; expected id, slope, intercept converted kcal/mol -> kJ/mol, direction, the '
                   'cleavage reactions r_0001, r_0002 and the synthesis reaction r_0005 each in its own list'
